@@ -42,8 +42,10 @@ def fam_SC(tier, narch=16, **kw):
 def fam_SD(tier, L=None, D=None, **kw):
     """Clone from every reachable state, then diverging histories on either world."""
     if tier == "quick":
-        return [scen("S-D/cap%d" % c, [THR], [c], L or 3, D or 7, max_clones=1, iter_destroy=[THR], iter_destroy_max_n=2, key_kinds=[0, 3], vias=["World"], **kw) for c in (0, 2)]
-    return [scen("S-D/cap%d" % c, [THR], [c], L or 3, D or 9, max_clones=(2 if c == 0 else 1), iter_destroy=[THR], iter_destroy_max_n=3, key_kinds=[0, 3], vias=["World"], **kw) for c in (0, 2, 3)]
+        return [scen("S-D2/caps01", [ONE, THR], [0, 1], 2, min(D or 7, 6), max_clones=1, iter_destroy=[100], iter_destroy_max_n=2, key_kinds=[0, 3], vias=["World"], **kw)] + \
+               [scen("S-D/cap%d" % c, [THR], [c], L or 3, D or 7, max_clones=1, iter_destroy=[THR], iter_destroy_max_n=2, key_kinds=[0, 3], vias=["World"], **kw) for c in (0, 2)]
+    return [scen("S-D2/caps01", [ONE, THR], [0, 1], 2, 8, max_clones=1, iter_destroy=[100, THR], iter_destroy_max_n=3, key_kinds=[0, 3], vias=["World"], **kw)] + \
+           [scen("S-D/cap%d" % c, [THR], [c], L or 3, D or 9, max_clones=(2 if c == 0 else 1), iter_destroy=[THR], iter_destroy_max_n=3, key_kinds=[0, 3], vias=["World"], **kw) for c in (0, 2, 3)]
 
 
 def fam_SE(tier, **kw):
@@ -60,10 +62,13 @@ def fam_SE(tier, **kw):
 
 def fam_SF(tier, **kw):
     """Fault actions (a panic at every callback point) followed by continued exploration."""
+    common = dict(iter_destroy=[THR], iter_destroy_max_n=2, key_kinds=[0, 1], vias=["World"], create_within=False)
     if tier == "quick":
-        return [scen("S-F/cap%d" % c, [THR], [c], 2, 5, max_faults=1, max_clones=0, iter_destroy=[THR], iter_destroy_max_n=2, key_kinds=[0, 1], vias=["World"], create_within=False, **kw) for c in (0, 2)]
-    out = [scen("S-F/cap%d" % c, [THR], [c], 3, 6, max_faults=2, max_clones=1, iter_destroy=[THR], iter_destroy_max_n=2, key_kinds=[0, 1], vias=["World"], create_within=False, **kw) for c in (0, 2)]
-    out.append(scen("S-F2/caps00", [ONE, THR], [0, 0], 2, 6, max_faults=1, iter_destroy=[100], iter_destroy_max_n=2, key_kinds=[0, 1], vias=["World"], create_within=False, **kw))
+        return [scen("S-F/cap%d" % c, [THR], [c], 3, 7, max_faults=1, max_clones=0, **common, **kw) for c in (0, 2)] + \
+               [scen("S-F/2faults/cap0", [THR], [0], 2, 6, max_faults=2, max_clones=0, **common, **kw),
+                scen("S-F2/caps00", [ONE, THR], [0, 0], 2, 5, max_faults=1, iter_destroy=[100], iter_destroy_max_n=2, key_kinds=[0, 1], vias=["World"], create_within=False, **kw)]
+    out = [scen("S-F/cap%d" % c, [THR], [c], 3, 8, max_faults=2, max_clones=1, **common, **kw) for c in (0, 2)]
+    out.append(scen("S-F2/caps00", [ONE, THR], [0, 0], 2, 7, max_faults=1, iter_destroy=[100], iter_destroy_max_n=2, key_kinds=[0, 1], vias=["World"], create_within=False, **kw))
     return out
 
 
